@@ -202,3 +202,6 @@ package client
 //@ ensures[wf] qsWF(c)
 //@ assigns contents(c.qs.pendq.Ops), c.qs.pendq.Election, c.qs.pendq.SessionParams, c.sendErr, c.qs.sendq, sent(c.qs.modifyCh)
 //@ props C13 C11:lock
+
+// clientIdle: the calling goroutine holds none of the client's locks.
+//@ pred clientIdle(c *Client) = held(c.awaiting) == 0 && held(c.qs.sendMu) == 0 && held(c.sendErrMu) == 0 && held(c.qs.pendMu) == 0
